@@ -195,6 +195,10 @@ func (s *Sim) park(p *pend) pendResult {
 	}
 	if r.sleep > 0 {
 		time.Sleep(r.sleep)
+		if p.rec != nil && p.rec.Fault == FStall {
+			// the call is over for its caller only now
+			p.rec.SeqOut = s.nextSeq()
+		}
 	}
 	return r
 }
